@@ -26,7 +26,7 @@ def _keep(e):
     if e.kind == "guard":
         return True
     if e.kind == "call":
-        return e.d["meth"] in ("attach_server", "detatch_server", "find_free_server", "choose_next_customer", "kill_server")
+        return e.d["meth"] in ("attach_server", "detatch_server", "find_free_server", "choose_next_customer", "kill_server", "reset_class_change")
     if e.kind == "enter":
         return e.d["meth"] in ("attach_server", "detatch_server", "decide_preempt")
     if e.kind == "assign":
